@@ -134,7 +134,15 @@ def check_scalar_cmps(P, ctx):
             if kind in ('narrowing', 'other'):
                 bad = bad or (r, d)
             elif kind == 'sign-expr':
-                why = check_sign_expr(P, fn, d)
+                if T in ('Int', 'Float', 'Thread'):
+                    why = check_sign_expr(P, fn, d)
+                else:
+                    # a type the property does not name (Range, Slice, ...: ordered by several fields, or by identity of what they view): the
+                    # return is a sign expression reached under guards this per-return check does not see; what can still go wrong
+                    # whatever the guards is taking the sign of a difference of the two sides
+                    why = None
+                    if any(x[0] == 'bin' and x[1] == '-' and side(x) == 'both' for x in ir.walk(d)):
+                        why = 'two values are subtracted before their sign is taken: the difference overflows (or is truncated) for operands far apart'
                 if why:
                     bad = bad or (r, why)
             elif kind == 'local':
